@@ -59,6 +59,8 @@ def floors(tier):
          "apply:mpo_object": 10 * k, "order_sensitive_applications": 40 * k,
          "dpt_comparisons": 400 * k, "dpt_nonzero_results": 200 * k, "dpt_with_operator": 40 * k,
          "dpt_with_swaps": 40 * k, "add_checks": 100 * k, "add_with_amplitudes": 30 * k, "fermionic_cases": 200 * k}
+    f.update({"circuits_with_scaled_site_tensors": 30 * k, "scaled_gates": 40 * k, "zero_gates": 5 * k, "circuits_on_1x1": 3 * k,
+              "apply_src:identity": 3 * k, "add_with_extreme_amplitudes": 15 * k, "odd_mpo_probes": 10 * k})
     for gk in GATE_KINDS:
         f["gate:" + gk] = 6 * k
     for pk in ("real", "imag", "complex"):
@@ -288,12 +290,15 @@ def case_gate(ctx, idx, rng, nprng):
 
 # ------------------------------------------------------------------------------------------------ kind: circuit
 
-def pick_family_lattice(rng, kinds=("vec", "purif", "randa", "randf", "randp")):
+CIRCUIT_LATTICES = PG.LATTICES + (((1, 1), "obc"),)
+
+
+def pick_family_lattice(rng, kinds=("vec", "purif", "randa", "randf", "randp"), lattices=PG.LATTICES):
     """draw (family, lattice, state kind) with a dense state of <= 4096 amplitudes."""
     for _ in range(200):
         F = PG.fam(*(rng.choice(PG.FAMILIES) if rng.random() < 0.6 else rng.choice(PG.FERMIONIC)))
         sk = rng.choice(kinds)
-        dims, bd = rng.choice(PG.LATTICES)
+        dims, bd = rng.choice(lattices)
         N = dims[0] * dims[1]
         if N <= PG.max_sites(F, sk in ("purif", "randf")):
             return F, dims, bd, sk
@@ -332,7 +337,7 @@ def draw_gate(F, rng, nprng, g, fr, psi):
     path = [tuple(s) for s in path]
     src = None
     if K == 1:
-        src = rng.choice(("pre_local", "raw", "raw", "mpo1"))
+        src = rng.choice(("pre_local", "raw", "raw", "mpo1", "identity"))
         if src == "pre_local":
             step, _ = PG.rand_scalar(rng)
             mu, _ = PG.rand_scalar(rng)
@@ -345,8 +350,8 @@ def draw_gate(F, rng, nprng, g, fr, psi):
             Gs = list(gate.G)
             M = R.gate_chain_dense(loc, Gs)
         else:
-            M = PG.rand_chain_operator(F, rng, nprng, 1)
-            Gs = PG.split_chain(F, M)
+            M = PG.rand_chain_operator(F, rng, nprng, 1) if src != "identity" else np.eye(F.d, dtype=np.complex128)
+            Gs = [o["I"]] if src == "identity" else PG.split_chain(F, M)
             if src == "mpo1":
                 gate = fpeps.Gate(G=PG.chain_to_mpo(F, Gs), sites=(path[0],))
             else:
@@ -431,12 +436,81 @@ def order_sensitive(F, M, positions):
     return bool(np.any((sg < 0) & (np.asarray(M) != 0))) or positions != sorted(positions)
 
 
+def big_scalar(rng):
+    """extreme but legal scale: modulus 1e-20 .. 1e20, sometimes with a phase."""
+    c = 10.0 ** rng.uniform(-20, 20)
+    return c * rng.choice((1, 1, -1, 1j, np.exp(0.7j)))
+
+
+def scale_gate(gate, c):
+    """the same Gate with its operator multiplied by c (first tensor of a tensor list / c * MPO)."""
+    G = gate.G
+    if isinstance(G, (tuple, list)):
+        return gate._replace(G=type(G)([c * G[0]] + list(G[1:])))
+    return gate._replace(G=c * G)
+
+
+def odd_mpo_probe(ctx, F, rng, g, fr, psi, x):
+    """PROBE (recorded, not judged): an MPO gate of odd fermionic parity.  apply_gate_ accepts it, the charge ends up on the
+    first site tensor; how to_tensor() orders that charge w.r.t. the sites is not documented, and no string is put on
+    sites outside the path, so agreement with the Jordan-Wigner operator is only recorded."""
+    import yastn.tn.fpeps as fpeps
+    import yastn.tn.mps as mps
+    o, loc = F.cat, F.loc
+    odd = [n for n in o if F.charge_of(n) is not None and loc.string(F.charge_of(n)) is not None and not np.iscomplexobj(F.mat[n])]
+    if not odd:
+        return
+    K = rng.randint(1, min(3, fr.N))
+    path = PG.rand_path(rng, g, K)
+    if path is None:
+        return
+    path = [tuple(s) for s in path]
+    a = rng.choice(odd)
+    j = rng.randrange(K)
+    terms = [mps.Hterm(1.0, [j], [o[a]])]
+    if K > 1:
+        terms.append(mps.Hterm(0.7, [j, rng.choice([i for i in range(K) if i != j])], [o[a], o[rng.choice(F.even[:-1])]]))
+    try:
+        op = mps.generate_mpo(o["I"], terms, N=K)
+        M = R.mpo_chain_dense(loc, op)
+        p2 = psi.shallow_copy()
+        p2.apply_gate_(fpeps.Gate(G=op, sites=tuple(path)))
+        y = fr.dense(p2)
+    except Exception as e:
+        ctx.count("probe:odd_mpo_gate:" + type(e).__name__)
+        return
+    ref = R.apply_chain(loc, x, M, [fr.position(s) for s in path], fr.sys_axes)
+    sc = max(float(np.abs(ref).max()), 1e-300)
+    first = min(fr.position(s) for s in path) == 0
+    if float(np.abs(ref).max()) < 1e-10 * max(float(np.abs(x).max()), 1e-300):
+        cls = "zero-result"
+    elif float(np.abs(y - ref).max()) < 1e-9 * sc:
+        cls = "agree"
+    elif float(np.abs(y + ref).max()) < 1e-9 * sc:
+        cls = "global-sign"
+    else:
+        cls = "mismatch"
+    ctx.count("odd_mpo_probes")
+    ctx.count("probe:odd_mpo_gate:" + cls + (":path-starts-at-first-site" if first else ":sites-before-path"))
+
+
 def case_circuit(ctx, idx, rng, nprng):
-    F, dims, bd, sk = pick_family_lattice(rng)
+    F, dims, bd, sk = pick_family_lattice(rng, lattices=CIRCUIT_LATTICES)
     g = PG.lattice(dims, bd)
     psi, fr, exp0 = make_state(F, rng, nprng, g, sk)
+    scaled = []
+    if rng.random() < 0.25:                      # extreme scales on single site tensors
+        for s in rng.sample(list(g.sites()), min(fr.N, rng.randint(1, 2))):
+            cs = big_scalar(rng)
+            psi[s] = cs * psi[s]
+            scaled.append([list(s), abs(cs)])
+            if exp0 is not None:
+                exp0 = exp0 * cs
+        ctx.count("circuits_with_scaled_site_tensors")
     x = fr.dense(psi)
-    base = {"kind": "circuit", "family": [F.cls, F.sym], "lattice": [list(dims), bd], "state": sk}
+    base = {"kind": "circuit", "family": [F.cls, F.sym], "lattice": [list(dims), bd], "state": sk, "scaled_sites": scaled}
+    if dims == (1, 1):
+        ctx.count("circuits_on_1x1")
     if exp0 is not None:
         ctx.count("product_state_checks")
         tol = 16 * EPS * fr.N * max(float(np.abs(exp0).max()), 1e-300)
@@ -453,6 +527,14 @@ def case_circuit(ctx, idx, rng, nprng):
         if gd["aux"] and PG.predicted_cost(psi, gd["aux"], gd["path"]) > 2 ** 21:
             ctx.count("gates_skipped_bond_budget")
             break
+        r = rng.random()
+        if r < 0.15:                             # the same gate at an extreme scale
+            cs = big_scalar(rng)
+            gd["gate"], gd["M"], gd["src"] = scale_gate(gd["gate"], cs), cs * np.asarray(gd["M"]), gd["src"] + "*big"
+            ctx.count("scaled_gates")
+        elif r < 0.19:                           # zero operator (zero-valued blocks): the state must become exactly zero
+            gd["gate"], gd["M"], gd["src"] = scale_gate(gd["gate"], 0.0), 0.0 * np.asarray(gd["M"]), gd["src"] + "*0"
+            ctx.count("zero_gates")
         psi.apply_gate_(gd["gate"])
         y = fr.dense(psi)
         ref = R.apply_chain(F.loc, x, gd["M"], gd["positions"], fr.sys_axes)
@@ -479,6 +561,10 @@ def case_circuit(ctx, idx, rng, nprng):
             ctx.count("order_sensitive_applications")
         steps.append(st)
         x = y
+        if gd["src"].endswith("*0"):
+            break
+    if F.loc.any_fermionic and rng.random() < 0.3 and np.any(x):
+        odd_mpo_probe(ctx, F, rng, g, fr, psi, x)
     ctx.count("circuits")
     if sk in ("purif", "randf"):
         ctx.count("purification_circuits")
@@ -650,6 +736,9 @@ def case_add(ctx, idx, rng, nprng):
     use_amp = rng.random() < 0.6 or nst > 2
     if use_amp:
         amps = [PG.rand_scalar(rng)[0] for _ in range(nst)]
+        if rng.random() < 0.25:
+            amps = [a * 10.0 ** rng.uniform(-20, 20) for a in amps]
+            ctx.count("add_with_extreme_amplitudes")
         if rng.random() < 0.2:
             amps[rng.randrange(nst)] = 0.0
         tot = fpeps.add(*states, amplitudes=amps)
@@ -755,3 +844,4 @@ def finalize(cov, merged):
     cov["gate_sources_applied"] = {k[10:]: int(v) for k, v in sorted(c.items()) if k.startswith("apply_src:")}
     cov["bond_orientations"] = {k[4:]: int(v) for k, v in sorted(c.items()) if k.startswith("dir:")}
     cov["dpt_corners"] = {k: int(v) for k, v in sorted(c.items()) if k.startswith("dpt_corner")}
+    cov["not_judged"] = {k: int(v) for k, v in sorted(c.items()) if k.startswith("probe:")}
